@@ -661,6 +661,14 @@ next:
 			for _, queries := range p.enclosingAtMedia {
 				if css_ast.MediaQueriesEqual(r.Queries, queries, nil) {
 					mangledRules = append(mangledRules, r.Rules...)
+
+					// The rule after this one must not be merged with the rule before
+					// this one, since the unwrapped rules now sit in between them
+					for _, unwrapped := range r.Rules {
+						if _, ok := unwrapped.Data.(*css_ast.RComment); !ok {
+							prevNonComment = unwrapped.Data
+						}
+					}
 					continue next
 				}
 			}
